@@ -223,6 +223,8 @@ class SchulzZimm(Distribution):
             The density has the mean Mn, the standard deviation Mn / sqrt(z) and an exponential tail of scale Mn / z.
             For very large supports the sum differs from 1 by less than the inverse of the support size and is not computed.
             """
+            if not (np.isfinite(z) and np.isfinite(Mn) and z > 0 and Mn > 0):
+                return 1.0
             upper = Mn * (1 + 40 / np.sqrt(z) + 60 / z) + 200
             if not np.isfinite(upper) or upper > 5e6:
                 return 1.0
